@@ -570,6 +570,7 @@ func run(r *h.Run, sc scenario) result {
 		// processed acknowledgements from the client's own receive log
 		done := map[packet.ID]bool{}
 		rec := map[packet.ID]bool{}
+		reopened := map[packet.ID]bool{} // a PUBREC arrived after the flow had been completed
 		for _, e := range ev {
 			if e.Kind != "crecv" {
 				continue
@@ -581,6 +582,13 @@ func run(r *h.Run, sc scenario) result {
 				done[v.ID] = true
 			case *packet.Pubrec:
 				rec[v.ID] = true
+				// a PUBREC that arrives after the flow was completed (the broker
+				// answered a duplicate PUBLISH) opens a new PUBREL that awaits its own
+				// PUBCOMP: the id is not "acknowledged" any more
+				if done[v.ID] {
+					reopened[v.ID] = true
+				}
+				done[v.ID] = false
 			}
 		}
 		for id := range saved {
@@ -601,6 +609,9 @@ func run(r *h.Run, sc scenario) result {
 				// the last crecv may not have been processed yet when the client was closed
 				if rec[id] && ok && k == "Publish" {
 					continue
+				}
+				if reopened[id] && !ok {
+					continue // the late PUBREC was received but not processed before the client closed
 				}
 				fail("session-loses-unacknowledged", fmt.Sprintf("packet id %d is published and not acknowledged but the session holds %q (want %s); store: %v", id, k, want, have))
 			}
